@@ -145,9 +145,13 @@ func checkC13(c *Ctx, r *Report) {
 				okDeleg := false
 				for _, ci := range callsTo(fn, false, short(objName(d.Object().(*types.Func)))) {
 					for _, cd := range condsAt(ci.Block()) {
-						if b, ok := cd.V.(*ssa.BinOp); ok && b.Op == token.GTR && cd.Truth {
-							if k, isC := constInt(b.Y); isC && k == 0 && strings.HasPrefix(pathOf(b.X), "builtin.len(") {
-								okDeleg = true
+						// any spelling of "the list of digipeaters is not empty" (emptyform.go); the list
+						// is the one handed on to the via-connect constructor
+						if x, empty, ok := emptyCond(cd); ok && !empty {
+							for _, a := range ci.Common().Args {
+								if a == x {
+									okDeleg = true
+								}
 							}
 						}
 					}
